@@ -689,6 +689,49 @@ fn share_node(a: &Call, b: &Call) -> bool {
     a.operands().iter().any(|x| b.operands().contains(x))
 }
 
+/// nodes whose lists a call may touch (isolate also edits every neighbour's list)
+fn touched(sc: &Scenario, thread: usize, c: &Call) -> BTreeSet<u8> {
+    let mut t: BTreeSet<u8> = c.operands().into_iter().collect();
+    if let Call::Isolate(u) = c {
+        for &(a, b, _) in &sc.init {
+            if a == *u {
+                t.insert(b);
+            }
+            if b == *u {
+                t.insert(a);
+            }
+        }
+        for d in &sc.threads[thread] {
+            if let Call::Connect(a, b, _) | Call::TryConnect(a, b, _) = d {
+                if a == u {
+                    t.insert(*b);
+                }
+                if b == u {
+                    t.insert(*a);
+                }
+            }
+        }
+    }
+    t
+}
+
+/// no two mutating calls of different threads touch a common node (then D15 — the non-atomic
+/// two-endpoint update — cannot be what makes the scenario fail)
+pub fn mutators_disjoint(sc: &Scenario) -> bool {
+    for i in 0..sc.threads.len() {
+        for j in i + 1..sc.threads.len() {
+            for a in sc.threads[i].iter().filter(|c| c.mutates()) {
+                for b in sc.threads[j].iter().filter(|c| c.mutates()) {
+                    if !touched(sc, i, a).is_disjoint(&touched(sc, j, b)) {
+                        return false;
+                    }
+                }
+            }
+        }
+    }
+    true
+}
+
 /// canonical form of a whole scenario (init + calls) for de-duplication up to node renaming
 fn scenario_key(sc: &Scenario) -> String {
     // try all renamings of 3 nodes, keep the smallest rendering
@@ -991,7 +1034,7 @@ pub fn run(ctx: &mut Ctx) {
     let mut excluded = 0u64;
     let mut deeper: Vec<Scenario> = vec![];
     if tier == Tier::Thorough {
-        let small: Vec<Call> = call_shapes(2).into_iter().chain([Call::Connect(0, 2, 0), Call::Disconnect(0, 2), Call::Isolate(2)]).collect();
+        let small: Vec<Call> = call_shapes(2).into_iter().chain([Call::Connect(0, 2, 0), Call::Disconnect(0, 2), Call::Isolate(2), Call::Connect(2, 2, 0), Call::Disconnect(2, 2), Call::Query(2), Call::Traverse(2)]).collect();
         let bad = |fl: &str, a: &Call, b: &Call| known_pairs.contains(&(fl.to_string(), canon_calls(&[vec![*a], vec![*b]])));
         let mut seen = BTreeSet::new();
         for init in inits().into_iter().take(6) {
@@ -1002,7 +1045,7 @@ pub fn run(ctx: &mut Ctx) {
                         for b2 in &small {
                             let sc = Scenario { n: 3, init: init.clone(), threads: vec![vec![with_value(*a1, 10), with_value(*a2, 11)], vec![with_value(*b1, 20), with_value(*b2, 21)]] };
                             let cross = [(a1, b1), (a1, b2), (a2, b1), (a2, b2)];
-                            if cross.iter().any(|(x, y)| bad(SDi::NAME, x, y) || bad(SUn::NAME, x, y)) {
+                            if cross.iter().any(|(x, y)| bad(SDi::NAME, x, y) || bad(SUn::NAME, x, y)) || !mutators_disjoint(&sc) {
                                 excluded += 1;
                                 continue;
                             }
@@ -1022,7 +1065,7 @@ pub fn run(ctx: &mut Ctx) {
                     for c in &small {
                         let sc = Scenario { n: 3, init: init.clone(), threads: vec![vec![with_value(*a, 10)], vec![with_value(*b, 20)], vec![with_value(*c, 30)]] };
                         let cross = [(a, b), (a, c), (b, c)];
-                        if cross.iter().any(|(x, y)| bad(SDi::NAME, x, y) || bad(SUn::NAME, x, y)) {
+                        if cross.iter().any(|(x, y)| bad(SDi::NAME, x, y) || bad(SUn::NAME, x, y)) || !mutators_disjoint(&sc) {
                             excluded += 1;
                             continue;
                         }
@@ -1066,7 +1109,7 @@ pub fn run(ctx: &mut Ctx) {
         });
         ctx.stats.merge(part_b);
         ctx.stats.extra.insert("scenarios_deeper".into(), json!(nd));
-        ctx.stats.extra.insert("scenarios_excluded_for_containing_a_known_bad_pair".into(), json!(excluded));
+        ctx.stats.extra.insert("scenarios_excluded_because_mutating_calls_of_different_threads_touch_a_common_node(D15)".into(), json!(excluded));
     }
 
     // ---- (b2) one mutator thread against reader threads on 4 nodes: must always serialise
